@@ -272,3 +272,23 @@ pub proof fn lemma_minimal_push_parses(d: Seq<u8>, enc: Seq<u8>)
     assert(tok(enc.skip(k)) == Some(Seq::<Tok>::empty()));
     assert(seq![minimal_push(d)] + Seq::<Tok>::empty() == seq![minimal_push(d)]);
 }
+// flattening of a freshly built conditional node, in terms of what its two branch readers consumed
+pub proof fn lemma_if_node(x: ScriptBit, a: Seq<Tok>, b: Seq<Tok>)
+    requires x is If,
+        flats(x->pass@) + seq![Tok::Op(if x->fail is None { 104u8 } else { 103u8 })] == a,
+        x->fail is Some ==> flats(x->fail->Some_0@) + seq![Tok::Op(104u8)] == b,
+        x->fail is None ==> b == Seq::<Tok>::empty(),
+    ensures flat(x) == seq![Tok::Op(x->code as u8)] + a + b
+{
+    let h = seq![Tok::Op(x->code as u8)];
+    match x->fail {
+        Some(f) => {
+            assert(flat(x) == h + flats(x->pass@) + (seq![Tok::Op(103u8)] + flats(f@)) + seq![Tok::Op(104u8)]);
+            assert(flat(x) =~= h + a + b);
+        }
+        None => {
+            assert(flat(x) == h + flats(x->pass@) + Seq::<Tok>::empty() + seq![Tok::Op(104u8)]);
+            assert(flat(x) =~= h + a + b);
+        }
+    }
+}
